@@ -104,8 +104,17 @@ func fiS(fi os.FileInfo) string {
 func fisS(l []os.FileInfo) string {
 	parts := make([]string, len(l))
 	for i, fi := range l {
-		parts[i] = fiS(fi)
+		// listing entries: name and kind only (a UnionFile re-serves cached, live FileInfos whose
+		// size/mode/mtime follow later changes; attributes are compared through Stat and snapshots)
+		d := "f"
+		if fi.IsDir() {
+			d = "d"
+		}
+		parts[i] = hx([]byte(fi.Name())) + "|" + d
 	}
+	// listings are compared as sorted lists (a UnionFile lists in Go map order); order-sensitive
+	// properties (C16, C15) compare order in their own harnesses
+	sort.Strings(parts)
 	return strings.Join(parts, ",")
 }
 
@@ -114,6 +123,7 @@ func namesS(l []string) string {
 	for i, n := range l {
 		parts[i] = hx([]byte(n))
 	}
+	sort.Strings(parts)
 	return strings.Join(parts, ",")
 }
 
